@@ -43,7 +43,7 @@ impl<'d> Data<'d> {
     /// Get a specific word.
     #[must_use]
     pub fn get(&self, idx: usize) -> Option<Word> {
-        if idx + 1 > self.quantity {
+        if idx >= self.quantity {
             return None;
         }
         let idx = idx * 2;
